@@ -5,7 +5,7 @@ package rest
 // C06 binding (phase replay): TLC behaviours of specs/Replication, in which replication activity is grouped into
 // phases, are executed on REAL inter-Sync-Gateway replications between two RestTesters:
 //   edits on either peer (PUT / PUT ?rev / DELETE / PUT on a tombstone)  ->  Start (push | pull | pushAndPull, continuous,
-//   default conflict resolver)  ->  Wait (until every running direction has processed every document sequence of its
+//   default conflict resolver, or a custom merging one)  ->  Wait (until every running direction has processed every document sequence of its
 //   source and the replication counters stopped moving)  ->  more edits  ->  Wait  ->  Stop  ->  edits  ->  Start ...
 // After every caught-up point the harness logs the view of every document on both peers (stored document: current
 // rev-tree id, current version, HLV, tombstone flag, body marker, whole rev tree; REST admin view: GET ?show_cv=true)
@@ -36,6 +36,7 @@ type c06Step struct {
 type c06Beh struct {
 	Proto string    `json:"proto"` // "v3" rev-tree protocol | "v4" version vectors
 	Dir   string    `json:"dir"`   // push | pull | pushAndPull
+	Res   string    `json:"res"`   // "" / "default": default resolver | "merge": custom resolver merging two live revisions
 	Steps []c06Step `json:"steps"`
 }
 
@@ -51,7 +52,18 @@ type c06Run struct {
 	nbody   int
 	nrerun  int
 	aborted bool
+	direct  map[string]*db.ActiveReplicator // merge family: replicators built through the db API (the REST API of this build only accepts the default resolver)
 }
+
+// c06MergeResolver merges two live revisions (k = local.k * 100 + remote.k) and leaves a conflict that involves a tombstone
+// to the default policy.
+const c06MergeResolver = `function(conflict) {
+	if (conflict.LocalDocument._deleted || conflict.RemoteDocument._deleted) { return defaultPolicy(conflict); }
+	var merged = new Object();
+	merged.channels = ["A"];
+	merged.k = Number(conflict.LocalDocument.k) * 100 + Number(conflict.RemoteDocument.k);
+	return merged;
+}`
 
 const c06WaitBound = 25 * time.Second
 const c06StallQuiet = 4 * time.Second
@@ -93,7 +105,7 @@ func (r *c06Run) run() {
 		sub = db.CBMobileReplicationV4.SubprotocolString()
 	}
 	r.peers = SetupISGRPeersWithOpts(r.t, TestISGRPeerOpts{ActivePeerSupportedBLIPSubProtocols: []string{sub}})
-	r.tw.Emit(vObj{"a": "Reset", "beh": r.idx, "proto": r.beh.Proto, "dir": r.beh.Dir,
+	r.tw.Emit(vObj{"a": "Reset", "beh": r.idx, "proto": r.beh.Proto, "dir": r.beh.Dir, "res": r.beh.Res,
 		"srcA": r.peers.ActiveRT.GetDatabase().EncodedSourceID, "srcB": r.peers.PassiveRT.GetDatabase().EncodedSourceID})
 	for _, s := range r.beh.Steps {
 		if r.aborted {
@@ -171,6 +183,9 @@ func (r *c06Run) direction() db.ActiveReplicatorDirection {
 }
 
 func (r *c06Run) createReplication(id string, continuous bool) bool {
+	if r.beh.Res == "merge" {
+		return r.createDirect(id, continuous)
+	}
 	cfg := &db.ReplicationConfig{
 		ID:                     id,
 		Direction:              r.direction(),
@@ -188,8 +203,66 @@ func (r *c06Run) createReplication(id string, continuous bool) bool {
 	return true
 }
 
+// createDirect builds and starts an ActiveReplicator with the custom merging resolver through the db API.
+func (r *c06Run) createDirect(id string, continuous bool) bool {
+	rt := r.peers.ActiveRT
+	ctx := rt.Context()
+	remote, err := url.Parse(r.peers.PassiveDBURL)
+	if err != nil {
+		r.abort("remote url: %v", err)
+		return false
+	}
+	resolver, err := db.NewCustomConflictResolver(ctx, c06MergeResolver, rt.GetDatabase().Options.JavascriptTimeout)
+	if err != nil {
+		r.abort("resolver: %v", err)
+		return false
+	}
+	stats, err := base.SyncGatewayStats.NewDBStats(fmt.Sprintf("c06db%d_%s", r.idx, id), false, false, false, false, nil, nil)
+	if err != nil {
+		r.abort("stats: %v", err)
+		return false
+	}
+	rstats, err := stats.DBReplicatorStats(id)
+	if err != nil {
+		r.abort("replicator stats: %v", err)
+		return false
+	}
+	ar, err := db.NewActiveReplicator(ctx, &db.ActiveReplicatorConfig{
+		ID:                         id,
+		Direction:                  r.direction(),
+		RemoteDBURL:                remote,
+		ActiveDB:                   &db.Database{DatabaseContext: rt.GetDatabase()},
+		ChangesBatchSize:           200,
+		ConflictResolverFunc:       resolver,
+		ConflictResolverFuncForHLV: resolver,
+		Continuous:                 continuous,
+		ReplicationStatsMap:        rstats,
+		CollectionsEnabled:         !rt.GetDatabase().OnlyDefaultCollection(),
+		SupportedBLIPProtocols:     rt.GetDatabase().SGReplicateMgr.SupportedBLIPSubprotocols,
+	})
+	if err != nil {
+		r.abort("new replicator %s: %v", id, err)
+		return false
+	}
+	if r.direct == nil {
+		r.direct = map[string]*db.ActiveReplicator{}
+	}
+	r.direct[id] = ar
+	if err := ar.Start(ctx); err != nil {
+		r.abort("start replicator %s: %v", id, err)
+		return false
+	}
+	return true
+}
+
 func (r *c06Run) status(id string) (db.ReplicationStatus, bool) {
 	var st db.ReplicationStatus
+	if ar, ok := r.direct[id]; ok {
+		if p := ar.GetStatus(r.peers.ActiveRT.Context()); p != nil {
+			return *p, true
+		}
+		return st, false
+	}
 	resp := r.peers.ActiveRT.SendAdminRequest(http.MethodGet, "/{{.db}}/_replicationStatus/"+id, "")
 	if resp.Code != http.StatusOK {
 		return st, false
@@ -222,6 +295,11 @@ func (r *c06Run) start() {
 			return
 		}
 		r.created = true
+	} else if ar, ok := r.direct[r.replID]; ok {
+		if err := ar.Start(r.peers.ActiveRT.Context()); err != nil {
+			r.abort("restart: %v", err)
+			return
+		}
 	} else {
 		resp := r.peers.ActiveRT.SendAdminRequest(http.MethodPut, "/{{.db}}/_replicationStatus/"+r.replID+"?action=start", "")
 		if resp.Code != http.StatusOK {
@@ -240,10 +318,17 @@ func (r *c06Run) stop() {
 	if !r.running {
 		return
 	}
-	resp := r.peers.ActiveRT.SendAdminRequest(http.MethodPut, "/{{.db}}/_replicationStatus/"+r.replID+"?action=stop", "")
-	if resp.Code != http.StatusOK {
-		r.abort("stop: %d %s", resp.Code, resp.Body.String())
-		return
+	if ar, ok := r.direct[r.replID]; ok {
+		if err := ar.Stop(); err != nil {
+			r.abort("stop: %v", err)
+			return
+		}
+	} else {
+		resp := r.peers.ActiveRT.SendAdminRequest(http.MethodPut, "/{{.db}}/_replicationStatus/"+r.replID+"?action=stop", "")
+		if resp.Code != http.StatusOK {
+			r.abort("stop: %d %s", resp.Code, resp.Body.String())
+			return
+		}
 	}
 	if !r.waitState(r.replID, db.ReplicationStateStopped) {
 		return
@@ -354,6 +439,10 @@ func (r *c06Run) rerun() {
 	}
 	st, _ := r.status(id)
 	r.tw.Emit(vObj{"a": "Rerun", "run": c06Stats(st), "views": r.views()})
+	if _, ok := r.direct[id]; ok {
+		delete(r.direct, id)
+		return
+	}
 	resp := r.peers.ActiveRT.SendAdminRequest(http.MethodDelete, "/{{.db}}/_replication/"+id, "")
 	if resp.Code != http.StatusOK {
 		r.abort("delete one-shot replication: %d %s", resp.Code, resp.Body.String())
